@@ -206,7 +206,7 @@ def pollF (c : Cache.State) (s : Subscriber) : Subscriber :=
 
 /-- `Sub.eof` on the subscriber it names -/
 def eofF (s : Subscriber) : Subscriber :=
-  if s.alive ∧ s.req.mode = .poll then { s with alive := false, status := some .ok } else s
+  if s.alive ∧ s.req.mode = .poll then { s with alive := false, status := some .ok, blocked := none } else s
 
 /-- `Sub.expire` on one subscriber -/
 def expireF (s : Subscriber) : Subscriber :=
@@ -228,7 +228,7 @@ theorem einv_pollF {s : Subscriber} (h : EInv s) (c : Cache.State) : EInv (pollF
 theorem einv_eofF {s : Subscriber} (h : EInv s) : EInv (eofF s) := by
   unfold eofF
   split
-  · exact ⟨⟨h.base.open, h.base.closedOnce, (fun ha => by cases ha), h.base.regs, h.base.regsNS⟩, quiet_dead rfl⟩
+  · exact ⟨⟨fun _ => rfl, h.base.closedOnce, (fun ha => by cases ha), h.base.regs, h.base.regsNS⟩, quiet_dead rfl⟩
   · exact h
 
 theorem einv_expireF {s : Subscriber} (h : EInv s) : EInv (expireF s) := by
